@@ -19,6 +19,42 @@ CHECKS = {
              "check_data). No axioms: every theorem is 'Closed under the global context'. Float rounding of real costs is outside the theorem "
              "(costs enter as exact values).",
         ref="DESIGN.md section 4 / C02"),
+    "C03": dict(
+        technique="Coq proof (DP invariants with delayed pruning, best-subset exchange lemma; unbounded n, p) + model-vs-code correspondence with a verified checker",
+        text="Theorems in coq/Properties/C03.v: for ANY per-column savings that are non-negative and sub-additive, non-negative penalties, 2 <= m <= M, "
+             "the model of run_base_capa returns a valid anomaly set maximising the total penalised saving over all valid sets; each prefix score equals the "
+             "optimum G(t) w.r.t. the true best-subset penalised saving (Pbest proved = max over non-empty component sets); re-evaluation = final score; "
+             "ignore_point_anomalies drops exactly the points; scores non-negative and non-decreasing; refutation of the pinned immediate pruning. Tie: "
+             "equality of predict / transform_scores with the real CAPA and MVCAPA on integer table savings (both ignore settings), and a sound Coq checker "
+             "re-checks the implementation's own output.",
+        note=BASE_TB + "Model/Capa.v is hand-written. The penalty callables/assigned penalties are inputs (C15 covers their formulas). No axioms.",
+        ref="DESIGN.md section 4 / C03"),
+    "C07": dict(
+        technique="Coq proof (greedy-loop invariants, interval arithmetic; unbounded n) + model-vs-code correspondence with direct spec checkers",
+        text="Theorems in coq/Properties/C07.v: candidate intervals inside [0,n] with lengths in [2m, min(max,n)] and non-empty (given the float front-end oracle's "
+             "postconditions); per-interval score/maximiser = max/first argmax over admissible splits; every changepoint supported by an above-threshold interval "
+             "containing it; no above-threshold interval left without a changepoint; changepoints >= m apart and from the ends; raising the threshold only removes "
+             "changepoints; totality. Tie: exact equality of predict and the scores table with the real SeededBinarySegmentation on integer change scores, plus the "
+             "property clauses checked directly on the implementation's output inside Coq, plus implementation-level threshold monotonicity.",
+        note=BASE_TB + "Model/Sbs.v hand-written; the floating-point front end of make_seeded_intervals (geomspace/round/log) is an ORACLE recomputed by the harness "
+             "with the library's NumPy expressions (validated on every configuration, not proved). No axioms.",
+        ref="DESIGN.md section 4 / C07"),
+    "C08": dict(
+        technique="Coq proof (run/peak characterisation by induction over the score list) + model-vs-code correspondence",
+        text="Theorems in coq/Properties/C08.v: score at t = change score of (t-b, t, t+b) on [b, n-b], 0 elsewhere; `where` = exactly the maximal runs; changepoints = "
+             "first maxima of maximal above-threshold runs of length >= min_detection_interval; sorted; in [b, n-b] for thr >= 0; time reversal maps scores at t to n-t; "
+             "refutation of the pinned one-short left window. Tie: exact equality of transform_scores / predict with the real MovingWindow on integer change scores and "
+             "an implementation-level reversal run.",
+        note=BASE_TB + "Model/Mw.v hand-written. No axioms.",
+        ref="DESIGN.md section 4 / C08"),
+    "C09": dict(
+        technique="Coq proof (greedy-loop invariants, candidate-set characterisation) + model-vs-code correspondence with direct spec checkers",
+        text="Theorems in coq/Properties/C09.v: inner candidates = exactly the intervals strictly inside with length >= m and >= m surrounding samples; per-interval score = max "
+             "over them; anomalies sorted, disjoint, length >= m, strictly inside the data; picks supported / complete / threshold-monotone; totality; m=1 length-2 intervals "
+             "have no candidate (pinned crash). Tie: exact equality of predict and the scores table (incl. argmax columns) with the real CircularBinarySegmentation on integer "
+             "local anomaly scores; clauses re-checked on the implementation's output in Coq.",
+        note=BASE_TB + "Model/Cbs.v hand-written; candidate intervals share the SBS float front-end oracle. No axioms.",
+        ref="DESIGN.md section 4 / C09"),
     "C13": dict(
         technique="Coq proof (characterisation of the accepted cuts) + exhaustive small-box correspondence against the real evaluate",
         text="Theorems in coq/Properties/C13.v: the model of evaluate's validation returns scores iff the argument is an integer array of "
